@@ -3,7 +3,7 @@
 Apply a one-site textual mutation in the scratch worktree /tmp/mut, run the quick check(s) against it, revert."""
 import os, subprocess, sys
 props, rel, old, new = sys.argv[1:5]
-M = "/tmp/mut"
+M = os.environ.get("MUTDIR", "/tmp/mut")
 if not os.path.isdir(M):
     subprocess.check_call(["git", "-C", "/repo", "worktree", "add", "-q", "--detach", M, "HEAD"])
 subprocess.check_call(["git", "-C", M, "checkout", "-q", "--detach", subprocess.check_output(["git", "-C", "/repo", "rev-parse", "HEAD"], text=True).strip()])
@@ -15,7 +15,7 @@ if s.count(old) != 1:
 open(p, "w").write(s.replace(old, new))
 try:
     if "--tests" in sys.argv:
-        b = "/tmp/mut_b"
+        b = M + "_b"
         subprocess.check_call(f"cmake -G Ninja -S {M} -B {b} -DCMAKE_BUILD_TYPE=Release >/dev/null && cmake --build {b} 2>&1 | tail -2 && {b}/tests/teakra_tests | tail -2", shell=True)
     env = dict(os.environ, VERIF_REPO=M)
     for pr in props.split(","):
